@@ -43,6 +43,21 @@ CHECKS = {
   "note": "Trusted: gosx translation (self-checked natively for the two non-clock entries), z3; time intrinsics; ExpirableCache assumes items are not created already expired. Longer sequences / larger capacities outside the claim.",
   "technique": TECH + "; API-bounded symbolic history against a reference model",
  },
+ "C19": {
+  "text": "Bounded symbolic model checking over a small finite space: Is/GRPCWrap/GRPCStatusCode/FromGRPCError/FromGRPCErrorMsg/EmbedObject/ExtractObject are executed from their SSA with the two tables built by the real package initialiser; class (all with a code) x other class x wrap depth 0..4 x embedded object, and all 17 codes, are case-split by the engine; map iteration in insertion and reverse order. The grpc status package and encoding/json are contract stubs, and every sampled path is re-run natively against the REAL grpc/json packages (agreement required).",
+  "note": "Trusted: gosx translation, the status/json stubs (validated natively per run). The solver's contribution is modest here (the space is finite and small); arbitrary message texts are outside the claim.",
+  "technique": TECH + "; contract stubs validated natively",
+ },
+ "C03": {
+  "text": "Bounded symbolic model checking, inductive step on the in-memory backend: the service's two maps are put into an arbitrary state over 2 (quick) / 3 (thorough) keys (absent / present with nil, empty or symbolic 1-byte value, version token, no or future expiry), one operation of Create/Get/GetMany/Put/PutMany/CasByVersion/Delete/ListKeys with symbolic arguments (repeated keys, current/empty/stale versions, done context) runs on the real SSA and z3 shows results and post-state equal the documented contract's reference model, with every written version new. The Redis backend is NOT covered yet (see not-applicable note in DESIGN).",
+  "note": "Trusted: gosx translation (self-checked natively on the 1-hour-offset entry), z3; NewID token stub, glob matcher stub, harness contexts, fixed clock during the step. Redis backend, larger alphabets and batches outside the claim.",
+  "technique": TECH + "; inductive step from a symbolic pre-state against a reference model",
+ },
+ "C06": {
+  "text": "Bounded symbolic model checking, inductive step on the in-memory backend with expiry instants anywhere relative to now (tie excluded): every operation kind is the first to touch a key after its expiry; z3 shows it is treated as deleted (Get/GetMany/CasByVersion/Delete report it missing, Create succeeds, ListKeys omits it) and that unexpired or never-expiring records are never dropped.",
+  "note": "Trusted: gosx translation (self-checked natively on the 1-hour-offset entry against the real clock), z3; stubs as C03. Redis TTL behaviour and wall-clock effects outside the claim.",
+  "technique": TECH + "; inductive step from a symbolic pre-state against a reference model",
+ },
 }
 
 _PENDING = "check not built yet in this session (solver-based harness planned, see DESIGN.md section 4)"
